@@ -10,7 +10,7 @@ from ..engine import Prop, Test
 
 RULE = (
     "A case is one CELL: (primitive family in {elementwise, matmul, broadcast, complex-holomorphic, container, scalar}, argument shape, "
-    "defect operator in {none, factor 1+-eps (eps = 1e-3, 1e-2, 1e-1), sign flip, transpose, missing reduction, missing conj, dropped "
+    "defect operator in {none, factor 1+-eps (eps = 3e-3, 1e-2, 1e-1), sign flip, transpose, missing reduction, missing conj, dropped "
     "imaginary cotangent, one wrong entry (>= 1e-2 relative), second-order-only (rule right, rule's own derivative wrong)}, defect "
     "placed in the VJP or the JVP rule, modes requested in {[rev], [fwd], [fwd, rev] (default)}, order in {1, 2}) x N trials (100 "
     "quick / 300 thorough); every trial seeds numpy.random (which check_grads draws its projections from) from the case's own "
@@ -73,7 +73,8 @@ def build(family, shape, defect, eps, where, vseed):
 
     if family in ("elementwise", "scalar"):
         sh = () if family == "scalar" else shape
-        (cc, x0), _ = values.generic(vseed, [sh, sh], 0.4, 1.6)
+        # well-scaled points: cos(x) >= 0.36, so a relative defect of the rule is not hidden below check_grads' absolute tolerance
+        (cc, x0), _ = values.generic(vseed, [sh, sh], 0.4, 1.2)
         if family == "scalar":
             x0, cc = float(x0), float(cc)
 
@@ -88,7 +89,7 @@ def build(family, shape, defect, eps, where, vseed):
         return f, x0
     if family == "matmul":
         n = max(2, shape[0] if shape else 2)
-        (B, x0), _ = values.generic(vseed, [(n, n), (n, n)], -1.2, 1.2)
+        (B, x0), _ = values.generic(vseed, [(n, n), (n, n)], -1.1, 1.1)
 
         @primitive
         def f(X):
@@ -239,7 +240,7 @@ def cell_body(trials, c):
     order = c.int(1, 2)
     cands = [d for d in DEFECTS if d != "none" and applicable(family, d, where, order)]
     defect = cands[c.int(0, len(cands) - 1)] if c.chance(4, 5) else "none"
-    eps = c.choice([1e-3, 1e-2, 1e-1, -1e-2])
+    eps = c.choice([3e-3, 1e-2, 1e-1, -1e-2])
     modes_req = c.choice(["default", "rev", "fwd"])
     shape = c.choice([(), (3,), (3, 2), (4, 4)]) if family not in ("matmul",) else c.choice([(2,), (3,), (4,)])
     if family == "broadcast":
